@@ -14,10 +14,13 @@ def lib_tables(logic, reverse=False):
     from pytableaux.lang import Operator
     M = logic.Model
     out = {}
+    # request every table first and read them afterwards: a table must not change when another one is requested
+    held = {op: (M.truth_table(Operator[op], reverse=reverse) if reverse else M.truth_table(Operator[op])) for op in RT.OPS}
     for op in RT.OPS:
-        tt = M.truth_table(Operator[op], reverse=reverse) if reverse else M.truth_table(Operator[op])
+        tt = held[op]
         out[op] = {tuple(v.name for v in k): o.name for k, o in tt.mapping.items()}
-        if [tuple(v.name for v in k) for k in tt.inputs] != list(out[op]) or [o.name for o in tt.outputs] != list(out[op].values()):
+        if [tuple(v.name for v in k) for k in tt.inputs] != list(out[op]) or [o.name for o in tt.outputs] != list(out[op].values()) \
+                or tt.operator is not Operator[op]:
             out[op] = {('inputs/outputs/mapping disagree',): '?'}
     return out
 
